@@ -162,6 +162,49 @@ def classify_model_section(ctx):
             ctx.corr_mismatch(case, "Gallina classify (Mark/Direction.v) differs from util.classifyGlyphs")
 
 
+def user_caret_section(ctx):
+    """'left alone when the user's features define them', for ligature carets: a hand-written GDEF table that gives carets by
+    position, by contour point index, or both, keeps exactly those carets (nothing is added from the caret_ anchors); one
+    that gives only glyph classes, or no table at all, gets the carets of the anchors"""
+    import ufo2ft
+    from fontTools.ttLib import TTFont
+    glyphs = [{"name": "f", "unicodes": [0x66], "width": 300, "contours": [], "components": [], "anchors": []},
+              {"name": "i", "unicodes": [0x69], "width": 250, "contours": [], "components": [], "anchors": []},
+              {"name": "f_i", "unicodes": [], "width": 520, "components": [], "anchors": [("caret_1", Fr(260), Fr(0))],
+               "contours": [[(Fr(0), Fr(0), "line"), (Fr(480), Fr(0), "line"), (Fr(480), Fr(500), "line"), (Fr(0), Fr(500), "line")]]},
+              {"name": "f_f_i", "unicodes": [], "width": 800, "components": [], "contours": [],
+               "anchors": [("caret_2", Fr(400), Fr(0)), ("caret_1", Fr(200), Fr(0))]}]
+    PARTS = {"classes": "    GlyphClassDef [f i], [f_i f_f_i], , ;\n", "pos": "    LigatureCaretByPos f_i 222;\n",
+             "index": "    LigatureCaretByIndex f_i 2;\n"}
+    from_anchors = {"f_i": [(1, 260)], "f_f_i": [(1, 200), (1, 400)]}
+    variants = [(), ("classes",), ("pos",), ("index",), ("classes", "index"), ("pos", "index"), ("classes", "pos")]
+    for i in range(ctx.budget(len(variants) * 2, len(variants) * 4)):
+        v = variants[i % len(variants)]
+        lib = ["ufoLib2", "defcon"][(i // len(variants)) % 2]
+        fea = "languagesystem DFLT dflt;\n" + ("table GDEF {\n" + "".join(PARTS[k] for k in v) + "} GDEF;\n" if v else "")
+        desc = {"glyphs": glyphs, "features": fea, "lib": {"public.openTypeCategories": {"f": "base", "i": "base", "f_i": "ligature", "f_f_i": "ligature"}}}
+        want = dict(from_anchors)
+        if "pos" in v or "index" in v:
+            want = {"f_i": ([(1, 222)] if "pos" in v else []) + ([(2, 2)] if "index" in v else [])}
+        case = {"features": fea, "user_gdef_statements": list(v), "lib": lib, "expected_carets": {k: list(x) for k, x in want.items()}}
+        ctx.count(); ctx.klass("user GDEF: " + ("+".join(v) or "no table")); ctx.nontriv(("ucaret", i, ctx.scale))
+        try:
+            tt = ufo2ft.compileTTF(build_font(desc, lib), useProductionNames=False)
+            buf = io.BytesIO(); tt.save(buf); buf.seek(0); tt = TTFont(buf)
+        except Exception as e:
+            ctx.spec_failure(case, "compile raised %s: %s\n%s" % (type(e).__name__, e, traceback.format_exc()[-1000:]))
+            continue
+        got = {}
+        gdef = tt["GDEF"].table if "GDEF" in tt else None
+        if gdef is not None and gdef.LigCaretList is not None:
+            for g, lg in zip(gdef.LigCaretList.Coverage.glyphs, gdef.LigCaretList.LigGlyph):
+                got[g] = sorted((cv.Format, cv.Coordinate if cv.Format == 1 else cv.CaretValuePoint) for cv in lg.CaretValue)
+        if got != {k: sorted(x) for k, x in want.items()}:
+            ctx.spec_failure(dict(case, compiled_carets={k: list(x) for k, x in got.items()}),
+                             "ligature carets %r, expected %r (%s)" % (got, want, "the user's table defines carets: left alone" if ("pos" in v or "index" in v)
+                                                                      else "from the caret_ anchors"))
+
+
 def direction_closure_section(ctx):
     """'glyphs of left-to-right scripts' includes the unencoded glyphs that LTR characters turn into: through GSUB rules of the
     feature file and through designspace <rule> substitutions (handed to the writers as extra substitutions). Independent
@@ -244,6 +287,7 @@ def direction_closure_section(ctx):
 
 
 def explore(ctx):
+    user_caret_section(ctx)
     direction_closure_section(ctx)
     classify_model_section(ctx)
     import ufo2ft
